@@ -470,7 +470,7 @@ impl Sub {
             "allocations_in_crate_calls": self.allocs,
             "panics": self.panics,
             "excluded_known": self.excluded_known,
-            "samples": self.samples,
+            "samples": self.samples.iter().take(1).collect::<Vec<_>>(),
             "notes": self.notes,
             "wall_ms": self.wall_ms,
             "generator_degenerate": self.degenerate,
@@ -769,7 +769,7 @@ pub fn finish(
         states += sub.states;
         transitions += sub.transitions;
         excluded += sub.excluded_known;
-        for s in sub.samples.iter().take(5) {
+        for s in sub.samples.iter().take(if report.subs.len() > 20 { 1 } else { 3 }) {
             samples.push(json!({"sub": sub.name, "config": ctx.config, "case": s}));
         }
         let mut sj = sub.to_json();
